@@ -12,6 +12,8 @@ From PowHsm Require Import Gen.SrcM.
 From PowHsm Require Import Proofs.SrcEquivDongleM.
 From PowHsm Require Import Proofs.SrcEquivProtoM.
 From PowHsm Require Import Proofs.SrcEquivSignM.
+From PowHsm Require Import Proofs.SrcEquivSignProtoM.
+From PowHsm Require Import Proofs.SrcEquivStateM.
 Open Scope N_scope.
 
 (* for every request and every device script, sign answers only codes docs/protocol.md lists for sign plus the generic ones (closed check on the generated tables vs the generated doc lists) *)
@@ -281,5 +283,29 @@ Theorem C04_source_sign_authorized_is_model :
            (VStr ws_hex) (VInt ov) w =
          mres sign_res (sign_authorized path_bin receipt proof tx input (mode_str segwit) ws ov w).
 Proof. exact (@srcm_sign_authorized_ok). Qed.
+
+(* TIE BY TRANSLATION (device monad): _sign as translated = model handler with its generated ladders and translation table, on every world *)
+Theorem C04_source_sign_handler_is_model :
+  forall (kind : dongle_kind) (init : pm pv) (cm : string -> pv -> list pv -> pr pv)
+           (fuel : nat) (self : pv) (req : obj) (x : str) (els : list N) 
+           (w : world),
+         init_ok kind init ->
+         tx_oracles_ok cm ->
+         oracles_ok cm (SrcEquivBase.path_obj els) (path_to_binary els) ->
+         jget (s "keyId") req = Some (JStr x) ->
+         bip32_path x = Some els ->
+         ValLemmasSignProtoM.message_absent_or_object req ->
+         (S (Datatypes.length (script (snd (ensure_connection kind w)))) <= fuel)%nat ->
+         srcm_HSM2ProtocolLedger___sign fuel cm init self (request_with_path req els) w =
+         mres rtuple_pv (op_sign_v5 kind req w).
+Proof. exact (@srcm_sign_handler_ok). Qed.
+
+(* _blockchain_state as translated = model handler, on every world *)
+Theorem C04_source_blockchain_state_handler_is_model :
+  forall (kind : dongle_kind) (init : pm pv) (self request : pv) (req : obj) (w : world),
+         init_ok kind init ->
+         srcm_HSM2ProtocolLedger___blockchain_state init self request w =
+         mres rtuple_pv (op_blockchain_state kind req w).
+Proof. exact (@srcm_blockchain_state_handler_ok). Qed.
 
 Example C04_nonvacuous : True. Proof. exact I. Qed. (* concrete runs closed by vm_compute in Proofs/C04.v: blockchainState on Status 0x6B87 / silent device / bad opcode / 0x6F00 answers -905; sign on ERR_SIGN_INVALID_PATH answers -103; ex_error_result_escapes_* exhibit the reconnection-bring-up observation recorded in DESIGN.md *)
